@@ -135,6 +135,11 @@ def run_variant(args):
                     return v["id"], "ANALYSIS-ERROR", out[:300]
             if not hit:
                 return v["id"], "MISSED", "; ".join(f"{p}: rc={rc}" for p, rc, _ in outs)
+            # properties the change leaves intact must stay silent (cross-property precision)
+            for p in v.get("silent", []):
+                rc, out = run_check(p, tmp)
+                if rc != 0:
+                    return v["id"], "FALSE-ALARM", f"{p}: rc={rc}: {out[:400]}"
             return v["id"], "ok", ""
         else:
             bad = []
